@@ -69,7 +69,7 @@ prop(
          "a cell = (builder branch, gap class relative to last-N, last-N, difficulty magnitude class, direction)",
     sizes=tiers(16, 24000, 60, 16, 400000, 900, min_evals=20000, min_cells=30),
     technique="runtime monitoring: ground-truth oracle over generated requests and an always-on monitor over the client's outbound GetLastStateProof messages; independent evaluation of the FlyClient sample bound",
-    level_text="Every request built for generated start/last numbers (1-block gaps, gaps of last-N and last-N+1, 2^32/2^63/2^64-scale numbers), total difficulties up to 2^256-1, all last-N values, with and without a previous proof and stored last-N headers, and every request the client emits during generated sync histories: start < last, td(start) <= td(last), boundary inside [td(start), td(last)], difficulties strictly increasing inside (start, boundary), samples iff more than last-N blocks are missing, count >= the independently computed FlyClient bound (strict where the range is >= 2^64).",
+    level_text="Every request built for generated start/last numbers (1-block gaps, gaps of last-N and last-N+1, 2^32/2^63/2^64-scale numbers), total difficulties up to 2^256-1, all last-N values, with and without a previous proof and stored last-N headers, and every request the client emits during generated sync histories: start < last, td(start) <= td(last), boundary inside [td(start), td(last)], difficulties strictly increasing inside (start, boundary), samples iff more than last-N blocks are missing, count >= the independently computed FlyClient bound (strict where the range is >= 2^64). World scenarios include chains with illegal difficulty jumps, so the second request of a tau re-check is judged too.",
     level_note="the count clause is strict only where identical draws are practically impossible; distribution quality is not judged; f64 evaluation of the bound is allowed an off-by-one",
 )
 
@@ -80,7 +80,7 @@ prop(
          "a cell = (query kind, order/grouping, filter kinds, paging class, search kind exact/prefix/longer/wrong-type)",
     sizes=tiers(16, 12000, 60, 16, 200000, 900, min_evals=10000, min_cells=40),
     technique="runtime monitoring: RPC answers vs. an independent decoder of the RocksDB dump, plus metamorphic relations (desc = reverse(asc), grouped = group(ungrouped), capacity = sum(cells))",
-    level_text="On stores filled by the real filter_block from generated chains (prefix-sharing scripts incl. empty args, same code hash with different hash types, typed/untyped cells, many cells per block) every generated query (exact / prefix / longer-args / wrong-type search keys, both orders, limits 1..100000, with_data true / absent / false, all filter kinds incl. empty, inverted and touching ranges) returns exactly the matching entries once in key order; desc is the reverse of asc; grouped equals the ungrouped list grouped by consecutive transaction for every page size; get_cells_capacity equals the sum over get_cells and reports the stored tip.",
+    level_text="On stores filled by the real filter_block from generated chains (prefix-sharing scripts incl. empty args, same code hash with different hash types, typed/untyped cells, many cells per block) every generated query (exact / prefix / longer-args / wrong-type search keys, both orders, limits 1..100000, with_data true / absent / false, all filter kinds incl. empty, inverted and touching ranges) returns exactly the matching entries once in key order; desc is the reverse of asc; grouped equals the ungrouped list grouped by consecutive transaction for every page size; get_cells_capacity equals the sum over get_cells and reports the stored tip. Degenerate requests (limit 0, search args above 65535 bytes, cell-only filters on get_transactions) are refused with an error.",
     level_note="script_len_range is taken as inclusive on both ends and the transaction script filter as exact (as ckb-indexer implements them); the dump decoder is part of the trusted base",
     assumptions=["ground truth is the store content (the property is about views of the index), decoded independently of service.rs"],
 )
@@ -92,7 +92,7 @@ prop(
          "a cell = (operator, section hit, peer state at delivery, outcome)",
     sizes=tiers(16, 240, 70, 16, 4000, 900, min_evals=5000, min_cells=60),
     technique="runtime monitoring: before/after digest of trusted state around every adversarial message; adversary = structural, field-level, byte-level and self-consistent single-flaw mutations of honest answers to the client's live random requests",
-    level_text="In generated sync histories (real Eaglesong PoW so that nonce rejection is observable, or dummy PoW; last-N 1..100; fresh, restarted and re-proving clients; shallow reorgs) every SendLastStateProof that differs from the honest answer to the outstanding request - header / proof item / chain root / uncles hash / extension altered, dropped, duplicated, swapped, replaced by a neighbour or by another branch, section boundaries shifted, re-generated consistent proofs with one header missing or a wrong sample, answers to earlier or other peers' requests, replays - left the trusted state byte-for-byte unchanged.",
+    level_text="In generated sync histories (real Eaglesong PoW so that nonce rejection is observable, or dummy PoW; last-N 1..100; fresh, restarted and re-proving clients; shallow reorgs) every SendLastStateProof that differs from the honest answer to the outstanding request - header / proof item / chain root / uncles hash / extension altered, dropped, duplicated, swapped, replaced by a neighbour or by another branch, section boundaries shifted, re-generated consistent proofs with one header missing or a wrong sample, answers to earlier or other peers' requests, replays - left the trusted state byte-for-byte unchanged. Chains with an illegal difficulty history (epoch difficulty jumping by more than tau) make the client run its tau re-check round trip (second request with the trend check off): mutated answers delivered in that state are judged as well. Ground truths independent of labels: every header in trusted state carries valid proof of work (R4), and a proven header moved by a proof with samples passes the total-difficulty range check (R5).",
     level_note="labels come from construction, not from re-implementing the verifier; FlyClient's probabilistic guarantee (a flaw outside the sampled set) is out of reach of a per-run oracle",
 )
 
@@ -102,7 +102,7 @@ prop(
          "a cell = (cause of the move, last adversarial operator) / injected operator / recovery outcome",
     sizes=tiers(16, 360, 60, 16, 3000, 900, min_evals=1500, min_cells=12),
     technique="runtime monitoring: online invariant check at every change of LAST_STATE against ground-truth cumulative difficulty, reopen comparison, bounded-progress oracle with one deviating peer among honest ones",
-    level_text="At every change of the stored tip in generated histories with honest peers plus one deviating peer (forged child announcements whose extension commits to a parent chain root with inflated / deflated / zero / 2^250 total difficulty or a wrong end number, equal-difficulty competitors, truthful self-mined children, stale announcements, restarts): the new tip is proven by some peer, strictly heavier, its stored total difficulty equals the real cumulative difficulty (for a fabricated child: proven parent's total + its own difficulty), the remembered last-N headers are its ancestors, a reopen reproduces the triple, and honest growth is followed within 60 rounds.",
+    level_text="At every change of the stored tip in generated histories with honest peers plus one deviating peer (forged child announcements whose extension commits to a parent chain root with inflated / deflated / zero / 2^250 total difficulty or a wrong end number, equal-difficulty competitors, truthful self-mined children, stale announcements, restarts): the new tip is proven by some peer, strictly heavier, its stored total difficulty equals the real cumulative difficulty (for a fabricated child: proven parent's total + its own difficulty), the remembered last-N headers are its ancestors, a reopen reproduces the triple, and honest growth is followed within 60 rounds. A third of the scenarios put honest peers on two competing branches (fork point above / at / below last-N): connected and proven in random order, branches growing by children and by 2..last-N+2 blocks, peers switching branches, restarts; the RPC get_tip_header is compared with the stored tip at every step.",
     level_note="ground truth comes from the chain generator; unbounded 'cannot freeze' is restated as bounded progress",
 )
 
@@ -112,7 +112,7 @@ prop(
     rule="one evaluation = one handler invocation (message or timer) wrapped in catch_unwind with overflow checks on; a cell = (message kind, peer state at delivery, generator class, outcome ok/ban/PANIC)",
     sizes=tiers(16, 360, 60, 16, 8000, 900, min_evals=20000, min_cells=150),
     technique="runtime monitoring: seeded state-aware grammar + boundary-value mutation of live honest answers + truncation / bit-flip / random-byte fuzzing at the received() boundary, panic capture, overflow-checking build, shard exit status",
-    level_text="Every generated byte string - well-formed messages of every union variant of the four protocols with numeric fields at {0,1,2,2^32-1,2^32,2^63,2^64-1,2^255,2^256-1, current+-1}, honest answers to the client's live requests with one field pushed to a boundary value and re-committed / re-mined so that the cheap gates are passed, v1 extra-field garbage, truncations, bit flips and random bytes - delivered in the peer states reached by real protocol steps (with and without scripts, fetch requests, dummy and real PoW), followed by timer ticks, returned without panic, arithmetic overflow or process death (only the documented long-fork abort is exempt).",
+    level_text="Every generated byte string - well-formed messages of every union variant of the four protocols with numeric fields at {0,1,2,2^32-1,2^32,2^63,2^64-1,2^255,2^256-1, current+-1}, honest answers to the client's live requests with one field pushed to a boundary value and re-committed / re-mined so that the cheap gates are passed, v1 extra-field garbage, truncations, bit flips and random bytes - delivered in the peer states reached by real protocol steps (with and without scripts, fetch requests, dummy and real PoW), followed by timer ticks, returned without panic, arithmetic overflow or process death (only the documented long-fork abort is exempt). Chains with illegal difficulty jumps (tau re-check path) and BlockFilters whose block hashes repeat are part of the generators.",
     level_note="coverage-blind generator (no libFuzzer offline for this dependency tree): reach is the grammar, the live-answer mutation and the coverage matrix reported in the evidence",
     death_is_violation=True,
 )
@@ -124,21 +124,21 @@ prop(
     "C03", "exploration", rule=IDX_RULE,
     sizes=tiers(16, 180, 70, 16, 1500, 900, min_evals=3000, min_cells=8),
     technique="runtime monitoring: reference indexer (independent UTXO/history model over the generated chain) compared with get_cells / get_transactions / get_cells_capacity after bounded-progress convergence",
-    level_text="After generated sync histories (transaction graphs with same-block chains, multi-script and typed cells; 1-4 registered scripts with different start numbers; random filter batch boundaries) interleaved with fetch_transaction / fetch_header calls, partial set_scripts of new scripts, restarts and chain growth (a third of the user's calls in the middle of a round, answers still in flight), every cell returned is live on the chain with exactly the chain's out-point, output, data, block number and tx index, every live cell and history entry in (start, tip] is returned, and get_cells_capacity equals the sum.",
+    level_text="After generated sync histories (transaction graphs with same-block chains, multi-script and typed cells; 1-4 registered scripts with different start numbers; random filter batch boundaries) interleaved with fetch_transaction / fetch_header calls, partial set_scripts of new scripts, restarts and chain growth (a third of the user's calls in the middle of a round, answers still in flight), every cell returned is live on the chain with exactly the chain's out-point, output, data, block number and tx index, every live cell and history entry in (start, tip] is returned, and get_cells_capacity equals the sum. A tenth of the histories start with the client's tip at block#1.",
     level_note="GCS false negatives are excluded by the library; convergence is bounded (250 rounds, chain keeps growing)",
 )
 prop(
     "C04", "exploration", rule=IDX_RULE,
     sizes=tiers(16, 180, 70, 16, 1500, 900, min_evals=3000, min_cells=8),
     technique="runtime monitoring: reference indexer on the new branch + bounded-progress convergence oracle + store-unchanged monitor until the documented long-fork abort",
-    level_text="After generated fork switches (fork point below / at / above last-N, arriving mid filter batch or mid download, with matched blocks pending, after restarts) the RPC answers equal the reference index of the new branch within 250 rounds of honest syncing; for forks that share no remembered header the index and stored tip stay byte-identical until the client stops with the documented long-fork panic.",
+    level_text="After generated fork switches (fork point below / at / above last-N, arriving mid filter batch or mid download, with matched blocks pending, after restarts) the RPC answers equal the reference index of the new branch within 250 rounds of honest syncing; for forks that share no remembered header the index and stored tip stay byte-identical until the client stops with the documented long-fork panic. A tenth of the histories start with the client's tip at block#1, after which block#1 is replaced or the chain grows (the 'previous last header is block#1' rollback).",
     level_note="check point interval > last-N as in production; unbounded 'never stuck' restated as bounded progress",
 )
 prop(
     "C09", "exploration", rule=IDX_RULE,
     sizes=tiers(16, 180, 70, 16, 1500, 900, min_evals=3000, min_cells=10),
     technique="runtime monitoring: README map model for the script set, matched-block emptiness check after every set_scripts, reported-number-implies-indexed rule, reference indexer at convergence",
-    level_text="For generated sequences of set_scripts (all / partial / delete, empty lists, duplicates, start numbers above and below current progress, re-adding deleted scripts) issued at random points of an ongoing sync (with matched blocks pending or partly downloaded; a third of the calls in the middle of a round with filter batches, blocks and proofs in flight): get_scripts equals the README model right after each call, pending matched blocks are discarded, no script reports a filtered height while a block at or below it that touches it is not indexed, and after convergence every kept script has its complete history and no phantom cell.",
+    level_text="For generated sequences of set_scripts (all / partial / delete, empty lists, duplicates, start numbers above and below current progress, re-adding deleted scripts) issued at random points of an ongoing sync (with matched blocks pending or partly downloaded; a third of the calls in the middle of a round with filter batches, blocks and proofs in flight): get_scripts equals the README model right after each call, pending matched blocks are discarded, no script reports a filtered height while a block at or below it that touches it is not indexed, and after convergence every kept script has its complete history and no phantom cell. A tenth of the histories start with the client's tip at block#1 (block#1 rollback path; block#1 replaced or the chain simply grows).",
     level_note="inputs whose previous output predates a script's start number cannot be attributed by design and are reported under C03",
 )
 
@@ -170,7 +170,7 @@ prop(
          "one committed (transaction, block hash) pairing, or one bounded-progress judgement; a cell = (kind, status edge, disturbance mode) / final status class",
     sizes=tiers(16, 400, 60, 16, 6000, 900, min_evals=3000, min_cells=20),
     technique="runtime monitoring: offline status-automaton checker over the RPC call/return trace, ground-truth lookup (transaction -> containing block), missing-report bookkeeping at the peer boundary, bounded-progress oracle",
-    level_text="In generated histories (existing and non-existing headers / transactions, 1-3 proven peers, fetch ticks with real or fast timer periods, serving peer answering invalidly, not answering until the timeout, answering several rounds late while further fetch calls arrive, or disconnecting before the answer) every status sequence is a path added -> fetching(first_sent constant) -> fetched | not_found -> added ..., not_found appears only after a valid missing report, an existing item is fetched within 45 rounds while an honest proven peer is connected, and every committed answer names a stored header whose block contains the transaction. A quarter of the scenarios fetch a transaction of the two highest provable blocks, switch the whole network to a branch that replaces that height, store the new branch's block at the same height (fetch_header, fetch_transaction or filter-sync indexing) and judge what get_transaction / fetch_transaction then say about the first transaction (KF47).",
+    level_text="In generated histories (existing and non-existing headers / transactions, 1-3 proven peers, fetch ticks with real or fast timer periods, serving peer answering invalidly, not answering until the timeout, answering several rounds late while further fetch calls arrive, or disconnecting before the answer) every status sequence is a path added -> fetching(first_sent constant) -> fetched | not_found -> added ..., not_found appears only after a valid missing report, an existing item is fetched within 45 rounds while an honest proven peer is connected, and every committed answer names a stored header whose block contains the transaction. A quarter of the scenarios fetch a transaction of the two highest provable blocks, switch the whole network to a branch that replaces that height, store the new branch's block at the same height (fetch_header, fetch_transaction or filter-sync indexing) and judge what get_transaction / fetch_transaction then say about the first transaction (KF47). Mode session-closing (fault injection): the serving peer's session starts closing - sends fail and are lost - and the disconnected callback arrives 1..4 rounds later.",
     level_note="'never lost' is restated as bounded progress (45 rounds; 110 for the timeout mode); a committed answer after a fork switch is accepted when it names the block that really contains the transaction (stale but truthful) or when the status is no longer committed",
 )
 
@@ -180,7 +180,7 @@ prop(
          "a cell = (operator, outcome)",
     sizes=tiers(16, 320, 60, 16, 2500, 900, min_evals=3000, min_cells=15),
     technique="runtime monitoring: RocksDB keyspace dump before/after every adversarial SendBlock / SendBlocksProof / SendTransactionsProof, end-of-scenario membership check of every stored transaction and header in the generated chain",
-    level_text="In generated sync histories with registered scripts and outstanding fetch requests, every adversarial answer - right header with a substituted body (output edited, transaction added / removed, body of another block, witness or extension edited), unrequested blocks, headers outside the request / forged / duplicated, found reported as missing, altered proof items, proofs against an unproven last header, forged Merkle lemmas / indices / witnesses roots, replaced transactions - leaves the Cell*, Tx*, TxHash, BlockHash and BlockNumber keyspaces unchanged, and at the end every stored transaction and header is one of the chain.",
+    level_text="In generated sync histories with registered scripts and outstanding fetch requests, every adversarial answer - right header with a substituted body (output edited, transaction added / removed, body of another block, witness or extension edited), unrequested blocks, headers outside the request / forged / duplicated, found reported as missing, altered proof items, proofs against an unproven last header, forged Merkle lemmas / indices / witnesses roots, replaced transactions - leaves the Cell*, Tx*, TxHash, BlockHash and BlockNumber keyspaces unchanged, and at the end every stored transaction and header is one of the chain. fetch_transaction / fetch_header calls for never-committed transactions and for made-up blocks are answered with blocks the peer made up (real block re-built around the transaction, re-committed, re-mined, consistent CBMT proof and v1 fields) at the height of the last header, one below, lower, and at the height of a genuine block of the same answer: nothing of them may be stored.",
     level_note="bodies colliding on transactions_root are out of scope (hash collision)",
 )
 
@@ -200,7 +200,7 @@ prop(
          "plus the timeout rule at every refresh tick and the no-residue rule after every removal; a cell = distinct (state, cause, resulting state) triple",
     sizes=tiers(16, 600, 60, 16, 40000, 900, min_evals=20000, min_cells=40),
     technique="runtime monitoring: offline automaton conformance over the boundary trace (events, states before/after, disconnects, virtual time), prove-state preservation check, timeout oracle in virtual time",
-    level_text="For generated event sequences (connect, disconnect, refresh / fetch / idle / filter ticks, time advanced to just below and above the 60 s timeout, chain growth, single message deliveries in any order, replayed / stale / unsolicited proofs, muted peers) over 1-3 peers: every state change is an edge of the documented automaton for its cause, a proof changes the prove state only while a proof request is outstanding, a last-state update never discards a prove state, a request (last state, last state proof, and - in the busy scenarios with registered scripts, fetch_header / fetch_transaction calls and peers that withhold SendBlocksProof / SendBlock / SendTransactionsProof - blocks proof, blocks and transactions proof requests sent at different times) or last state older than the timeout leads to a disconnect at the next refresh tick and no disconnect happens without such a cause, and a removed peer leaves no entry behind.",
+    level_text="For generated event sequences (connect, disconnect, refresh / fetch / idle / filter ticks, time advanced to just below and above the 60 s timeout, chain growth, single message deliveries in any order, replayed / stale / unsolicited proofs, muted peers) over 1-3 peers: every state change is an edge of the documented automaton for its cause, a proof changes the prove state only while a proof request is outstanding, a last-state update never discards a prove state, a request (last state, last state proof, and - in the busy scenarios with registered scripts, fetch_header / fetch_transaction calls and peers that withhold SendBlocksProof / SendBlock / SendTransactionsProof - blocks proof, blocks and transactions proof requests sent at different times) or last state older than the timeout leads to a disconnect at the next refresh tick and no disconnect happens without such a cause, and a removed peer leaves no entry behind. Fault injection at the network boundary: sessions that start closing (sends fail and are lost, the disconnected callback comes later); chains with illegal difficulty jumps add the tau re-check edges. After every removal of a peer (disconnect, ban, timeout) the header / transaction fetches it had in flight are eligible for other peers again.",
     level_note="the send times of GetBlocksProof / GetBlocks / GetTransactionsProof requests are observed at the network boundary (virtual time of the outbound message), their existence through the pub(crate) accessors of Peer; a request whose send was not observed is not judged",
 )
 
@@ -220,6 +220,6 @@ prop(
          "a cell = (operator, script-active or quiet height) / (advance, label of the message that caused it)",
     sizes=tiers(16, 400, 60, 16, 4000, 900, min_evals=2000, min_cells=20),
     technique="runtime monitoring: adversarial peers tamper BlockFilters answers (hash chain and check points stay honest), trick-agnostic oracle = reference indexer compared with the client's answers up to its self-reported script block numbers and at convergence",
-    level_text="With 2-4 proven peers of which at least one is honest, deviating peers answer GetBlockFilters with 13 kinds of tampered batches (filter bytes, neighbour / quiet-block filter, start +-1, random / other-height / swapped block hashes, count mismatch, shorter batch, garbage tail, swapped filters, shifted batch), aimed at heights where a registered script is active, on both the cached-hash and latest-hash paths; no registered script's activity at or below its reported block number is missing from get_transactions / get_cells, and at convergence the index equals the reference.",
+    level_text="With 2-4 proven peers of which at least one is honest, deviating peers answer GetBlockFilters with 13 kinds of tampered batches (filter bytes, neighbour / quiet-block filter, start +-1, random / other-height / swapped block hashes, count mismatch, shorter batch, garbage tail, swapped filters, shifted batch), aimed at heights where a registered script is active, on both the cached-hash and latest-hash paths; no registered script's activity at or below its reported block number is missing from get_transactions / get_cells, and at convergence the index equals the reference. In a third of the scenarios the deviation is in the vote: a minority below the quorum (max_outbound 3..5) serves consistently tampered filters, block filter hashes and check points; liars connect first, honest peers join one by one or lag behind.",
     level_note="deviators never reach the quorum for filter hashes / check points (C07 covers that vote); scripts are registered from block 0 before the sync so the recorded C03/C04/C09 findings cannot interfere",
 )
